@@ -83,6 +83,41 @@ def binder_program(rng, g):
     return " ".join(parts)
 
 
+def nested_blocks(rng, g):
+    """blocks nested 1-3 deep, each level reading some up-values before the next level, which reads those and others"""
+    n = rng.randint(2, 4)
+    names = rng.sample(gen.NAMES, n)
+    vals = [g.lit(rng.choice("cs"))[0] for _ in names]
+    pre = " ".join("let %s := %s;" % (a, v) for a, v in zip(names, vals))
+    if rng.random() < 0.4:
+        pre = "(" + ", ".join(g.lit("c")[0] for _ in range(2)) + ") let %s := ; " % names[0] + \
+              " ".join("let %s := %s;" % (a, v) for a, v in zip(names[1:], vals[1:]))
+    depth = rng.randint(1, 3)
+
+    def level(d):
+        reads = rng.sample(names, rng.randint(0, len(names)))
+        head = " ".join("%s drop" % r if rng.random() < 0.7 else "[%s] drop" % r for r in reads)
+        if d == 0:
+            inner = "[" + ", ".join(rng.sample(names, rng.randint(1, len(names)))) + "]"
+        else:
+            inner = "{ %s } apply" % level(d - 1) if rng.random() < 0.7 else "let Fn := { %s }; Fn" % level(d - 1)
+        return (head + " " + inner).strip()
+    return "%s { %s } apply" % (pre, level(depth - 1))
+
+
+def infix_lets(rng, g):
+    a, b = g.lit("c")[0], g.lit("c")[0]
+    return rng.choice([
+        "let N := %s; ((let N := %s; N) == N) N" % (a, b),
+        "((let M := %s; M) == (let M := %s; M))" % (a, b),
+        "1 (|N| ((let M := N 1 add; M) == (let M := 2; M)) N)",
+        "((let B := %s; B) == (B))" % a,
+        "let A := %s; ((let B := A; B) != (let C := %s; C)) A" % (a, b),
+        "((let P := %s;) < P)" % a,
+        "let Q := 5; (Q < (let Q := %s; Q)) Q" % a,
+    ])
+
+
 def alpha_rename(p, rng):
     """consistently rename the single-capital-letter names of a program"""
     names = sorted(set(re.findall(r"\b[A-Z]\b", p)))
@@ -107,7 +142,8 @@ def run(ctx):
         progs = [rp["input"]] if isinstance(rp.get("input"), str) else list(rp["input"])
         n = 0
     for _ in range(n):
-        progs.append(binder_program(rng, g))
+        k = rng.random()
+        progs.append(binder_program(rng, g) if k < 0.7 else nested_blocks(rng, g) if k < 0.9 else infix_lets(rng, g))
     stats, irecs, mrecs = zwcorr.run_programs(ctx, h, progs, theorem="ZwVerif.C03.* / engine = ZwVerif.sem",
                                              label="C03-programs")
     # alpha-renaming on the implementation alone
